@@ -188,7 +188,7 @@ func runC10(args []string) error {
 	r := rf.rng()
 	n := rf.count(120, 2000)
 	sum := &Summary{Engine: "c10", Seed: rf.Seed,
-		Rule: "client scripts of 6-20 operations (put, delete range, transactions incl. empty branches and read-only ones, linearizable and serializable range reads) through the real table.ActiveTable on a simulated Raft host: one committed log, three real fsm.FSM replicas with seed-chosen lag and apply batching, SyncRead served after catching up to the commit index (ReadIndex contract), StaleRead served by a lagging replica as is; checked: revision = log index and strictly increasing, linearizable reads and read-only transactions equal the fully caught-up state, serializable reads equal the state at the serving replica's prefix (recomputed by replay), read path per request kind; distinct = distinct scripts; non-trivial = at least one stale read served by a lagging replica and one empty-branch transaction"}
+		Rule: "client scripts of 6-20 operations (put, delete range, transactions incl. empty branches and read-only ones, linearizable and serializable range reads) through the real table.ActiveTable on a simulated Raft host: one committed log, three real fsm.FSM replicas with seed-chosen lag and apply batching, SyncRead served after catching up to the commit index (ReadIndex contract), StaleRead served by a lagging replica as is; checked: revision = log index and strictly increasing, linearizable reads and read-only transactions equal the fully caught-up state, serializable reads equal the state at the serving replica's prefix (recomputed by replay), read path per request kind; plus a range read delivered in several messages with a transaction applied between two of them (one state, not a mix); distinct = distinct scripts; non-trivial = at least one stale read served by a lagging replica and one empty-branch transaction"}
 	cf := &CasesFile{Requires: []string{"Model.Bytes", "Model.Obs", "Model.Cmd", "Model.Fsm", "Run.FsmRun"}, CaseType: "fcase",
 		Check: "fsm_check", Show: "fsm_model", Spec: "fsm_spec_check", SpecShow: "fsm_spec"}
 	ho := sum.hist("ops")
@@ -460,6 +460,10 @@ func runC10(args []string) error {
 		}
 	}
 	sum.Evaluations = n
+	// one read delivered in several messages is one state too
+	if err := lazyStreamOneState(sum, joinChunks); err != nil {
+		return err
+	}
 	if len(sum.Samples) == 0 {
 		sum.Samples = append(sum.Samples, cf.Descr[0])
 	}
